@@ -198,8 +198,8 @@ func c06Walk(c *vh.Ctx, spec *core.Spec, cs walkCase) {
 func C06(c *vh.Ctx) {
 	if c.Replay != "" {
 		var probe struct {
-			Msgs []interface{} `json:"msgs"`
-			Limit *int `json:"limit"`
+			Msgs  []interface{} `json:"msgs"`
+			Limit *int          `json:"limit"`
 		}
 		c.LoadReplay(&probe)
 		if probe.Limit != nil {
